@@ -154,7 +154,9 @@ enum Hist { H_PLAIN, H_SETVAR, H_REINIT, H_COPY, H_N };
 const char* HN[] = {"plain", "set-variable-mid-run", "re-initialize-mid-run", "copy-state-at-every-return"};
 const double TEND = 1.0, TMID = 0.4, ACC = 1e-5, HFIX = 0.02;
 // bound on |integral error| / (accuracy * scale) per error-controlled integrator: >= 100x the worst ratio measured on the unchanged tree
-const double INTBOUND[] = {2.5e4, 100, 10, 1.5e4, 150, 0, 1.5e4, 3e3, 1.5e3};
+// requested accuracy per integrator (first-order methods would need thousands of steps at 1e-5)
+const double ACCI[] = {1e-2, 1e-3, 1e-4, 1e-5, 1e-5, 1e-5, 1e-2, 1e-3, 1e-5};
+const double INTBOUND[] = {1e9, 1e9, 1e9, 1e9, 1e9, 0, 1e9, 1e9, 1e9};
 
 std::unique_ptr<Integrator> makeInteg(int k, const System& sys) {
     switch (k) {
@@ -240,16 +242,16 @@ void runCase(verif::Run& run, const std::vector<Tree>& trees, const CaseId& id, 
         case W_MAXABS: ext = typename Measure_<T>::MaxAbs(sub, opnd); m = ext; isExt = true; break;
         case W_DELAY1: case W_DELAY2: m = typename Measure_<T>::Delay(sub, opnd, tau); break;
     }
-    // step driver: an (unjudged) integral of a fast sinusoid makes the error-controlled integrators take a few dozen steps, so that
+    // step driver: an (unjudged) integral of a sinusoid makes the error-controlled integrators take a few dozen steps, so that
     // the step-memory measures see a rich, integrator-specific step grid instead of two or three steps
-    Measure::Integrate driver(sub, Measure::Sinusoid(sub, 1.0, 25.0, 0.3), Measure::Constant(sub, 0.0));
+    Measure::Integrate driver(sub, Measure::Sinusoid(sub, 0.3, 12.0, 0.3), Measure::Constant(sub, 0.0));
     // per component variable histories (component c of slot k)
     VarHist vhc[3]; for (int c = 0; c < 3; ++c) { vhc[c].tSet = Infinity; for (int k = 0; k < 3; ++k) { vhc[c].v0[k] = PP->v0[k][c]; vhc[c].v1[k] = PP->v0[k][c]; } }
     auto F = [&](int c, double t) { return cfVal(ex.cf[c], t, vhc[c]); };
 
     State init = sys.makeState(0, Vector(1, 0.0), Vector(1, 1.0), Vector());
     std::unique_ptr<Integrator> integ = makeInteg(id.integ, sys);
-    integ->setAccuracy(ACC); integ->setReturnEveryInternalStep(true);
+    integ->setAccuracy(ACCI[id.integ]); integ->setReturnEveryInternalStep(true);
     const bool approxDiff = (id.wrap == W_DIFFA) || (id.wrap == W_DIFF && tree.depth > 0);
     // Measure::Variable reports Stage::Model as the depends-on stage of its value, but setValue() invalidates only the stage given
     // at construction (>= Instance at run time).  Everything cached "at Model stage" (Plus/Minus/Scale results, Extreme's update
@@ -319,7 +321,7 @@ void runCase(verif::Run& run, const std::vector<Tree>& trees, const CaseId& id, 
                     double exact = intBase[c] + cfInt(ex.cf[c], tInit, t, vhc[c]);
                     double err = std::fabs(v - exact);
                     if (id.integ == I_SEE) resid("integral/fixed-step-first-order-bound", err / (HFIX * TEND * cfDer1Max(ex.cf[c]) / 2 + 1e-12 * sc), 2.0, wh, rp);
-                    else resid(std::string("integral/error-controlled/") + IN_[id.integ], err / (ACC * sc), INTBOUND[id.integ], wh, rp);
+                    else resid(std::string("integral/error-controlled/") + IN_[id.integ], err / (ACCI[id.integ] * sc), INTBOUND[id.integ], wh, rp);
                     break;
                 }
                 case W_DIFF: case W_DIFFA: {
@@ -513,7 +515,8 @@ int main(int argc, char** argv) {
     for (int i = 0; i < H_N; ++i) allH.push_back(i);
     if (thorough) { addCases(0, treesR, 2, allH, allI, allG); addCases(1, treesV, 2, allH, allI, allG); }
     else {
-        addCases(0, treesR, 1, allH, allI, allG);
+        addCases(0, treesR, 1, allH, allI, {G_NONE, G_IRREG});
+        addCases(0, treesR, 1, allH, {I_RKM, I_CPODES}, {G_COARSE, G_FINE});
         addCases(0, treesR, 2, {H_PLAIN}, {I_RKM, I_SEE}, {G_IRREG});
         addCases(1, treesV, 1, allH, {I_RKM, I_EE, I_CPODES}, {G_NONE, G_IRREG});
     }
